@@ -258,6 +258,21 @@ def check_pair(root, idx, pair, all_pairs, variants, seed):
                     res["variants"].append(hist)
                     if got != ref_o:
                         diff = sorted(k for k in set(got) | set(ref_o) if got.get(k) != ref_o.get(k))
+                        # two inputs of the corpus may declare the same behaviour (WarningTest22 / WarningTest23 both define WarningTest23): in one
+                        # invocation the last one treated legitimately owns the files.  A difference is only a violation when none of the earlier
+                        # inputs, treated alone, writes one of the differing files
+                        clash = False
+                        for o in others:
+                            fresh()
+                            if os.path.exists(lg):
+                                os.remove(lg)
+                            run_mfront(wd, o, iolog=lg, options=opts)
+                            if set(outputs_of_run(wd, lg)) & set(diff):
+                                clash = True
+                        if clash:
+                            res["skipped_same_invocation"] = res.get("skipped_same_invocation", 0) + 1
+                            res["variants"].pop()
+                            break
                         res["viol"] = ("generated-files-differ", "variant %d (%s after %s in one mfront invocation%s, %s): %s differ from the files generated when the input is treated alone" % (
                             vi, hist, [os.path.basename(o[0]) for o in others], (" with " + " ".join(opts)) if opts else "", "natural heap layout" if nds is None else "nd seed %d" % nds, diff[:4]), {"variant": vi, "history": hist, "nd_seed": nds, "files": diff[:8], "before": [o[0] for o in others], "options": list(opts)})
                         bad = True
